@@ -1,7 +1,7 @@
 (** C10 Lifecycle safety.  Property theorems only; proofs in Life/Proofs.v (same model and invariant as C09). *)
 From Coq Require Import ZArith List Bool.
 Import ListNotations.
-From PV Require Import Life.Model Life.Proofs.
+From PV Require Import Life.Model Life.Proofs Life.FdModel.
 Local Open Scope Z_scope.
 
 (** isalive() never lies: True only for a running child, False only for a dead child that has now been reaped (and
@@ -82,6 +82,24 @@ Print Assumptions C10_io_after_close_fails.
 Theorem C10_fd_stays_invalid : forall w o, Inv w -> wf_op o -> s_fd_valid (sp w) = false -> s_fd_valid (sp (snd (lstep w o))) = false.
 Proof. exact fd_stays_invalid. Qed.
 Print Assumptions C10_fd_stays_invalid.
+
+(** fdspawn / SocketSpawn (descriptor-based transports): over every sequence of close / isalive / send calls, with the
+    descriptor possibly closed by somebody else in between, the object releases its descriptor at most once; a successful
+    close is final: closing again does nothing, the object reports not alive and sending fails *)
+Theorem C10_fd_released_once : forall is_socket ops w, FInv w -> (f_releases (frun is_socket ops w) <= 1)%nat.
+Proof. exact fd_released_once. Qed.
+Print Assumptions C10_fd_released_once.
+Theorem C10_fd_closed_is_final : forall is_socket w, FInv w -> f_closed w = true ->
+  fstep is_socket w FClose = (FOk, w) /\ fst (fstep is_socket w FIsalive) = FBool false /\ fstep is_socket w FSend = (FErr, w).
+Proof. exact fd_closed_is_final. Qed.
+Print Assumptions C10_fd_closed_is_final.
+Theorem C10_fd_close_closes : forall is_socket w, FInv w -> f_valid w = true -> os_open w = true ->
+  let '(r, w') := fstep is_socket w FClose in r = FOk /\ f_closed w' = true /\ f_valid w' = false /\ os_open w' = false.
+Proof. exact fd_close_closes. Qed.
+Print Assumptions C10_fd_close_closes.
+Theorem C10_fd_fresh : FInv fd0.
+Proof. exact fd0_inv. Qed.
+Print Assumptions C10_fd_fresh.
 
 Example C10_stubborn_stopped_child :
   fst (terminate (world0 true true true) true) = RBool true.
